@@ -14,14 +14,14 @@
                 overshoot_heals_sequentially, spill_loop_tie, translated_code_is_model,
                 segment_len_is_reachable, clear_resets, count_eq_entries_at_quiescence,
                 no_nested_locks, gen_grow_len_pow2_tie
-                occupancy_bound (every schedule: entries <= capacity + calls in
-                flight + fruitless full-ring scans not yet made up for),
-                occupancy_bound_repaired (the repaired spill loop: entries <=
-                capacity + calls in flight), entries_le_counter_plus_inflight,
+                occupancy_bound_repaired (HEADLINE: every schedule, the loop the code
+                has since 47c8f66: entries <= capacity + calls in flight),
+                occupancy_bound (either loop: ... + fruitless full-ring scans not yet
+                made up for), entries_le_counter_plus_inflight,
                 foreach_no_duplicates (ForEach concurrent with writers)
      partial  : none
-     refuted  : occupancy_bound_refuted (the bound without the last term; finding
-                swc-sparse-scan-race)
+     refuted  : occupancy_bound_refuted — a regression lemma about the OLD spill loop
+                (rescan = false) only; finding swc-sparse-scan-race is fixed
      (count_eq_entries_at_quiescence now covers Clear: the defect clear-count-race
       was fixed in /repo by aae41ee and the model follows the repaired code) *)
 From Sdns Require Import Common.Base Common.GoList Gen.C16 C16.Model C16.Conc.
@@ -190,26 +190,56 @@ Proof. exact Proofs_conc.count_eq_entries_at_quiescence. Qed.
 Print Assumptions count_eq_entries_at_quiescence.
 
 (* Every concurrent theorem below holds for both spill loops of the model
-   (rescan = false: the loop of /repo; rescan = true: props/C16/fix.patch).
+   (rescan = true: the loop of /repo since 47c8f66; rescan = false: the loop before,
+   kept for the regression lemmas).
 
-   12. Capacity under concurrency.  For every schedule of any number of threads
-       using the cache.Cache operations (SetWithCap with one capacity, Del, CAS,
-       CompareAndDelete, Clear, Get, ForEach) from a map within its capacity:
+   12. Capacity under concurrency — the property's clause, as stated.  For every
+       schedule of any number of threads using the cache.Cache operations
+       (SetWithCap with one capacity >= 1, Del, CAS, CompareAndDelete, Clear, Get,
+       ForEach) from a map within its capacity, with the spill loop the code has
+       (a writer that has been round the ring without evicting anything while the
+       counter is above the capacity goes round again, own segment included):
+         entries <= capacity + calls in flight. *)
+Theorem occupancy_bound_repaired : forall (mix : N -> N) (sidx : nat -> N -> nat) (eoff : N -> Z),
+  (forall n k, 0 < n -> sidx n k < n) ->
+  forall cap m0 progs sched, (1 <= cap)%Z ->
+  SWF mix sidx m0 -> (sm_count m0 <= cap)%Z ->
+  (forall p, In p progs -> forall c, In c p -> capped cap c) ->
+  let s := run mix sidx eoff true (init m0 progs) sched in
+  (entries s <= cap + inside s)%Z.
+Proof. intros mix sidx eoff H cap m0 progs sched Hc. exact (Proofs_conc.occupancy_bound_repaired mix sidx eoff true H cap m0 progs sched eq_refl Hc). Qed.
+Print Assumptions occupancy_bound_repaired.
+
+(* The loop /repo has IS the rescanning one (read from the text of SetWithCap's for
+   condition on every run), so the bound holds for the code's own hash functions as
+   stated.  Reverting 47c8f66 — or rewording the condition — breaks this. *)
+Theorem spill_loop_tie :
+  spill_cond_src = [spill_cond_rescan] /\ go_rescan = true /\
+  (forall cap progs sched, (1 <= cap)%Z ->
+     (forall p, In p progs -> forall c, In c p -> capped cap c) ->
+     let s := c_run_src (init (new_segmap 4 0) progs) sched in (entries s <= cap + inside s)%Z).
+Proof.
+  assert (R : go_rescan = true) by (vm_compute; reflexivity).
+  split; [vm_compute; reflexivity|]. split; [exact R|].
+  intros cap progs sched Hc Hp. unfold c_run_src. rewrite R.
+  apply (Proofs_conc.occupancy_bound_repaired go_mix go_sidx go_eoff true go_sidx_lt cap _ progs sched eq_refl Hc); auto.
+  - apply (new_segmap_SWF go_mix go_sidx go_sidx_lt 4%Z 0%Z).
+  - vm_compute. destruct cap; try discriminate; lia.
+Qed.
+Print Assumptions spill_loop_tie.
+
+(* 12a. What holds for either loop, hence what was true of the code before 47c8f66:
          entries <= capacity + calls in flight + c_exh
        where the ghost counter c_exh (Conc.v) is the number of SetWithCap calls that
        have returned because their spill loop ran through the whole ring although
        they had evicted nothing, and that nothing has made up for yet:
-         +1  at such a return;
+         +1  at such a return (never taken by the rescanning loop with capacity >= 1);
          -1  (not below 0) for every entry removed beyond an over-capacity insert's
              first eviction: the second eviction of an insert's toll, a Remove /
              CompareAndDelete that hits, every entry dropped by Clear;
          =0  again whenever a SetWithCap call loads the counter and finds it within
              the capacity.
-       So an overshoot is at most the number of fruitless full-ring scans, every
-       later over-capacity Add (toll 2, at most one entry added) takes one off, and
-       the bound as the property states it is back at the latest when an Add sees the
-       counter within capacity.  Where no fruitless scan occurs the property's
-       statement holds as given (third conjunct). *)
+       Where no fruitless scan occurs the property's statement holds (third conjunct). *)
 Theorem occupancy_bound : forall (mix : N -> N) (sidx : nat -> N -> nat) (eoff : N -> Z) (rescan : bool),
   (forall n k, 0 < n -> sidx n k < n) ->
   forall cap m0 progs sched,
@@ -221,45 +251,17 @@ Theorem occupancy_bound : forall (mix : N -> N) (sidx : nat -> N -> nat) (eoff :
 Proof. exact Proofs_conc.occupancy_bound. Qed.
 Print Assumptions occupancy_bound.
 
-(* The c_exh term is necessary: the statement without it (entries <= capacity +
-   writers in flight, in every reachable state) is refuted — three overlapping
-   inserts at capacity 1 end with two entries, nobody in flight, c_exh > 0
-   (finding swc-sparse-scan-race, replayed on the Go code by the seg driver). *)
+(* Regression lemma about the OLD loop (rescan = false; finding swc-sparse-scan-race,
+   fixed by 47c8f66): without the second round the bound fails — three overlapping
+   inserts at capacity 1 end with two entries, nobody in flight, c_exh > 0.  The same
+   schedule against the loop the code has now ends with one entry (ex_occ below; the
+   seg driver replays it on the Go code, strictly). *)
 Theorem occupancy_bound_refuted :
   exists progs sched, only_swc_cap 1 progs /\
     let s := c_run (init (new_segmap 4 0) progs) sched in
     quiescent s = true /\ (entries s > 1 + inside s)%Z /\ (0 < c_exh s)%Z.
 Proof. exact occupancy_bound_refuted_lemma. Qed.
 Print Assumptions occupancy_bound_refuted.
-
-(* With the repaired spill loop (a writer that has been round the ring without
-   evicting anything while the counter is above the capacity goes round again, own
-   segment included: props/C16/fix.patch) the property's bound holds as stated, for
-   every schedule. *)
-Theorem occupancy_bound_repaired : forall (mix : N -> N) (sidx : nat -> N -> nat) (eoff : N -> Z),
-  (forall n k, 0 < n -> sidx n k < n) ->
-  forall cap m0 progs sched, (1 <= cap)%Z ->
-  SWF mix sidx m0 -> (sm_count m0 <= cap)%Z ->
-  (forall p, In p progs -> forall c, In c p -> capped cap c) ->
-  let s := run mix sidx eoff true (init m0 progs) sched in
-  (entries s <= cap + inside s)%Z.
-Proof. intros mix sidx eoff H cap m0 progs sched Hc. exact (Proofs_conc.occupancy_bound_repaired mix sidx eoff true H cap m0 progs sched eq_refl Hc). Qed.
-Print Assumptions occupancy_bound_repaired.
-
-(* Which of the two loops /repo has is read from the source text; with the repaired
-   one the property's bound holds for the code's own hash functions as stated. *)
-Theorem spill_loop_tie :
-  ((spill_cond_src = [spill_cond_plain] /\ go_rescan = false) \/ (spill_cond_src = [spill_cond_rescan] /\ go_rescan = true)) /\
-  (go_rescan = true -> forall cap progs sched, (1 <= cap)%Z ->
-     (forall p, In p progs -> forall c, In c p -> capped cap c) ->
-     let s := c_run_src (init (new_segmap 4 0) progs) sched in (entries s <= cap + inside s)%Z).
-Proof.
-  split; [exact gen_spill_cond_known|]. intros R cap progs sched Hc Hp. unfold c_run_src. rewrite R.
-  apply (Proofs_conc.occupancy_bound_repaired go_mix go_sidx go_eoff true go_sidx_lt cap _ progs sched eq_refl Hc); auto.
-  - apply (new_segmap_SWF go_mix go_sidx go_sidx_lt 4%Z 0%Z).
-  - vm_compute. destruct cap; try discriminate; lia.
-Qed.
-Print Assumptions spill_loop_tie.
 
 (* In every reachable state (any calls, Set and PutIfNotExists included) the entries
    exceed the counter by at most the number of calls in flight. *)
